@@ -476,6 +476,42 @@ def run(tier, seed, replay=None):
                 fail('area', args, 'the area of a planar surface is %r, of the same surface moved rigidly in 3-space %r' % (a2, a3))
         except Exception as e:  # noqa
             fail('area', args, 'planar vs spatial area raised %s' % type(e).__name__)
+    # ---- kernel-evaluated tie: Curve.binormal / Curve.normal vs Model/Frenet.v (binormal_dir, normal_dir on Q, vm_compute):
+    #      the unit vector returned by the implementation is a positive multiple of the direction the model computes from x', x''
+    import vmtie as T
+    fcases = []
+    for _ in range(30 if tier == 'quick' else 300):
+        kind = rng.choice(['cubic', 'cubic', 'polyline', 'polyline-axis', 'tiny', 'long'])
+        if kind.startswith('polyline'):
+            pts_ = [[rng.randint(-8, 8) / 2.0 for _c in range(3)] for _i in range(4)]
+            if kind == 'polyline-axis':
+                ax_ = rng.randrange(3)
+                pts_[1] = list(pts_[0]); pts_[1][ax_] += rng.choice([-2.0, 1.5, 3.0])
+            crv = Curve(BSplineBasis(2, [0, 0, 1, 2, 3, 3]), pts_)
+            t_ = rng.choice([0.25, 0.5, 0.75]) if kind == 'polyline-axis' else rng.choice([0.5, 1.5, 2.25])
+        else:
+            sc_ = {'tiny': 2.0 ** -40, 'long': 1.0}.get(kind, 1.0)
+            b_ = {'long': 2.0 ** 31}.get(kind, 1.0)
+            crv = Curve(BSplineBasis(4, [0, 0, 0, 0, b_ / 2, b_, b_, b_, b_]), [[sc_ * rng.randint(-16, 16) / 4.0 for _c in range(3)] for _i in range(5)])
+            t_ = b_ * rng.choice([0.125, 0.375, 0.625, 0.9375])
+        dx_, ddx_ = crv.derivative(t_, 1), crv.derivative(t_, 2)
+        if not np.any(np.abs(np.cross(dx_, ddx_ if np.any(ddx_) else [0, 0, 1])) > 1e-9 * (np.linalg.norm(dx_) * max(np.linalg.norm(ddx_), 1e-300))):
+            continue    # velocity parallel to the acceleration (or to the helper): no frame to compare
+        try:
+            bn_, nn_ = crv.binormal(t_), crv.normal(t_)
+        except Exception as e:  # noqa
+            corr_bad += {'what': 'vmtie frenet: binormal/normal raised %s' % type(e).__name__, 'op': 'frenet'}
+            continue
+        dist['op']['vmtie frenet ' + kind] = dist['op'].get('vmtie frenet ' + kind, 0) + 1
+        inp_ = dict(kind=kind, knots=crv.knots(0, True).tolist(), controlpoints=crv.controlpoints.tolist(), t=t_)
+        if kind not in ('tiny', 'long'):
+            fcases.append(('binormal(%r) of a %s curve' % (t_, kind), 'same_dir (1 # 1000000) %s (binormal_dir %s %s)' % (T.ql(bn_), T.ql(dx_), T.ql(ddx_)), inp_))
+        if kind not in ('tiny', 'long'):    # the implementation switches to its helper direction below an ABSOLUTE size of the acceleration
+            fcases.append(('normal(%r) of a %s curve' % (t_, kind), 'same_dir (1 # 1000000) %s (normal_dir %s %s)' % (T.ql(nn_), T.ql(dx_), T.ql(ddx_)), inp_))
+        fcases.append(('|binormal(%r)| = 1 on a %s curve' % (t_, kind), 'qclose (1 # 1000000) (dot3 %s %s) 1' % (T.ql(bn_), T.ql(bn_)), inp_))
+        fcases.append(('|normal(%r)| = 1 on a %s curve' % (t_, kind), 'qclose (1 # 1000000) (dot3 %s %s) 1' % (T.ql(nn_), T.ql(nn_)), inp_))
+    tie_f = T.report(V, corr_bad, 'frenet', 'Model/Frenet.v binormal_dir, normal_dir', *T.run_tie('frenet', ['Model.Frenet'], fcases))
+    dist['op']['vmtie frenet evaluated'] = tie_f['cases']
     rc = V.finish(l0, corr_bad)
     C.write_evidence(PID, tier, seed, l0, {
         'evaluations': evals, 'distinct_nontrivial': len(nontriv),
